@@ -629,7 +629,9 @@ def judge_answer(sim, ev, rec):
                     "signature %s; tool=%s" % ("absent" if filled is None else "empty", rec.get("tool")))
     enc_faulted = any(f.get("op") == "encrypt" for f in tf)
     conf_props = ["C17"] + (["C20"] if enc_faulted else [])
-    if asked_protect["encrypt"] and can_encrypt and not p.get("advice") and not p.get("pefim"):
+    if asked_protect["encrypt"] and can_encrypt and not (p.get("dialect") or {}).get("plain_next_to_encrypted"):
+        # (also with PEFIM / advice encryption on top: when the main assertion is to be encrypted, no assertion
+        # may be left readable at the top level of the response)
         wrapped_plain = sum(1 for e in m["encrypted"] if any(t.endswith("}Assertion") for t in e["plain_children"]))
         if m["assertions"] or wrapped_plain:
             for cp in conf_props:
@@ -649,7 +651,8 @@ def judge_answer(sim, ev, rec):
         import html as _html
         decodings.append(_html.unescape(decodings[-1]))
         ms = []
-        if p.get("advice") or p.get("pefim"):
+        if (p.get("advice") or p.get("pefim")) and not asked_protect["encrypt"]:
+            # only the attribute assertion in the Advice is confidential, the main assertion travels in clear
             for vals in (asked.get("identity") or {}).values():
                 ms.extend(v for v in vals if len(v) >= 8)
         else:
